@@ -17,7 +17,7 @@ Proof. split; vm_compute; reflexivity. Qed.
 Print Assumptions c27_gen_source_order.
 
 From Coq Require Import Lia Permutation.
-From Verif.C27 Require Import Proofs Props.
+From Verif.C27 Require Import Proofs ProofsSorted Props.
 
 (* The generated table and source list meet the hypotheses of the general theorems: knownParams is keyed by the
    lower-cased field name; the sources are listed in strictly descending order and are all above "<default>" = 0. *)
@@ -79,3 +79,15 @@ Theorem c27_gen_flags_present :
   /\ existsb (fun m => pm_local m && pm_die m) param_table = true.
 Proof. split; vm_compute; reflexivity. Qed.
 Print Assumptions c27_gen_flags_present.
+
+(* The code now in the tree (sorted keys) on the REAL table, Go's byte order on names: every map iteration order of every
+   source gives the same result, also with several case-variant spellings of a parameter in one source. *)
+Theorem c27_gen_order_independent_sorted : forall parse fixed (c c' : cfg bytes bytes),
+  (forall s, NoDup (map fst (src_kvs c s))) -> (forall s, Permutation (src_kvs c s) (src_kvs c' s)) ->
+  resolve beqb bleb lower_b is_none_b (known_in known_table) parse srcs_desc (env_local genv) fixed true c
+  = resolve beqb bleb lower_b is_none_b (known_in known_table) parse srcs_desc (env_local genv) fixed true c'.
+Proof.
+  intros parse. exact (c27_order_independent_sorted bytes bytes bytes beqb lower_b is_none_b (known_in known_table) parse
+                         (env_local genv) bleb srcs_desc bleb_total bleb_antisym bleb_trans).
+Qed.
+Print Assumptions c27_gen_order_independent_sorted.
